@@ -55,6 +55,7 @@ func DrawCDPs(t *rapid.T, issuers, maxN int, kinds []string) []CDPSpec {
 			Twin:   twin,
 			NoAKI:  rapid.IntRange(0, 3).Draw(t, fmt.Sprintf("cdp%d_noaki", i)) == 0,
 			PEM:    rapid.IntRange(0, 3).Draw(t, fmt.Sprintf("cdp%d_pem", i)) == 0,
+			Form:   rapid.SampledFrom([]string{"", "", "", "nonumber", "v1"}).Draw(t, fmt.Sprintf("cdp%d_form", i)),
 		})
 	}
 	return out
